@@ -189,7 +189,7 @@ def source(inp):
 # ------------------------------------------------------------------ 2. forms of a parameter constraint
 def gen_con(tier, seed):
     for value_sign in ("pos", "neg", "mixed"):
-        for pair in ("simple-rel-vs-abs", "matrix-rel-cov-vs-abs-cov", "matrix-cor+unc-vs-cov", "matrix-cor+rel-unc-vs-cov", "fit-simple-rel-vs-abs", "fit-matrix-cor-vs-cov", "fit-matrix-rel-vs-abs"):
+        for pair in ("simple-rel-vs-abs", "matrix-rel-cov-vs-abs-cov", "matrix-cor+unc-vs-cov", "matrix-cor+rel-unc-vs-cov", "matrix-cor+unc-rebuilt-from-its-relative-view", "fit-simple-rel-vs-abs", "fit-matrix-cor-vs-cov", "fit-matrix-rel-vs-abs"):
             yield {"values": value_sign, "pair": pair}
 
 
@@ -207,6 +207,9 @@ def constraint(inp):
         a, b = con.GaussianMatrixParameterConstraint([2, 0], vals, Mr, relative=True), con.GaussianMatrixParameterConstraint([2, 0], vals, Mr * np.outer(vals, vals))
     elif pair == "matrix-cor+unc-vs-cov":
         a, b = con.GaussianMatrixParameterConstraint([2, 0], vals, cor, matrix_type="cor", uncertainties=unc), con.GaussianMatrixParameterConstraint([2, 0], vals, cor * np.outer(unc, unc))
+    elif pair == "matrix-cor+unc-rebuilt-from-its-relative-view":          # what a constraint reports as its relative form describes the same constraint (this is what is written to files)
+        b = con.GaussianMatrixParameterConstraint([2, 0], vals, cor, matrix_type="cor", uncertainties=unc)
+        a = con.GaussianMatrixParameterConstraint([2, 0], vals, np.asarray(b.cor_mat), matrix_type="cor", uncertainties=np.asarray(b.uncertainties_rel), relative=True)
     elif pair == "matrix-cor+rel-unc-vs-cov":
         a = con.GaussianMatrixParameterConstraint([2, 0], vals, cor, matrix_type="cor", uncertainties=rel, relative=True)
         b = con.GaussianMatrixParameterConstraint([2, 0], vals, cor * np.outer(rel * vals, rel * vals))
